@@ -185,6 +185,19 @@ func c19Plain(sh c19Shape, stall int, ctx context.Context, onStall func()) *c19O
 					return
 				}
 				r := message.NewMessageFromStream(sa)
+				if i == 1 {
+					// the second reply is drained with the read-everything-that-is-left entry point
+					var rest []byte
+					if rest, out.err = r.GetRemainingBytes(ctx); out.err != nil {
+						return
+					}
+					if len(rest) != 8+len("typed-payload")+1 {
+						// "success" with only part of the message: the operation has ended without an error
+						// although it did not get what it was reading (judged as no-error when the context ended)
+						return
+					}
+					continue
+				}
 				if _, out.err = r.GetInt(ctx); out.err != nil {
 					return
 				}
